@@ -15,6 +15,7 @@ import (
 	"fmt"
 	"math/rand"
 	"runtime"
+	"strconv"
 	"strings"
 	"sync"
 
@@ -44,6 +45,8 @@ type Node struct {
 	MaxX     bool
 	MinL     int // -1 = absent
 	MaxL     int
+	Neg      bool   // bounds from the pool of negative fractions (negBounds)
+	Ex       string // example token of a literal when it is not the default of its kind
 	Add      string // additionalProperties: "", any, object, array, string, integer, float, boolean, null, @tN
 }
 type Prop struct {
@@ -86,10 +89,10 @@ func (g *gen) genNode(depth int, allowRef bool) *Node {
 					switch a.Lit {
 					case "i", "f":
 						if r.Intn(2) == 0 {
-							a.Min = []string{"-5", "0", "1", "1.5", "2"}[r.Intn(5)]
+							a.Min = []string{"-5", "0", "1", "1.5", "2", "-1.5", "-0.5", "-12.5"}[r.Intn(8)]
 						}
 						if r.Intn(2) == 0 {
-							a.Max = []string{"1", "2", "7", "1.5", "100"}[r.Intn(5)]
+							a.Max = []string{"1", "2", "7", "1.5", "100", "-1.4", "-0.25", "-12.49"}[r.Intn(8)]
 						}
 					case "s":
 						if r.Intn(2) == 0 {
@@ -132,6 +135,9 @@ func (g *gen) genNode(depth int, allowRef bool) *Node {
 				n.MaxL = 1 + r.Intn(3)
 			}
 		}
+		if (n.Lit == "i" || n.Lit == "f") && r.Intn(3) == 0 {
+			g.negBounds(n)
+		}
 		return n
 	case k <= 10:
 		n := &Node{Kind: "arr"}
@@ -173,9 +179,88 @@ func (g *gen) genNode(depth int, allowRef bool) *Node {
 }
 
 var litText = map[string]string{"i": "1", "f": "1.5", "s": `"s"`, "b": "true", "n": "null"}
+
+// Negative fractions that share their integer part, in several spellings: the comparison of two negative numbers
+// with equal integer parts is decided by the fractional digits under the sign flip. Schema text may not spell a
+// number with an exponent (lexical error 301), so exponent spellings occur in documents only.
+var negBoundPool = []string{"-1.5", "-1.50", "-1.4", "-1.6", "-1.45", "-0.25", "-0.5", "-0.3", "-12.5", "-12.49"}
+var negExamples = map[string][]string{
+	"f": {"-1.5", "-1.4", "-1.6", "-1.45", "-1.55", "-0.25", "-0.5", "-0.3", "-0.2", "-12.5", "-12.49", "-12.51", "-1.0", "-13.5", "1.5"},
+	"i": {"-1", "-2", "-12", "-13", "0", "1"},
+}
+var negDocToks = map[string][]string{
+	"f": {"-1.5", "-1.50", "-15e-1", "-1.4", "-1.40", "-1.6", "-1.45", "-1.55", "-1.49", "-1.51", "-0.25", "-0.250", "-25e-2", "-0.5",
+		"-0.3", "-0.2", "-0.26", "-0.24", "-1249e-2", "-12.49", "-12.5", "-125e-1", "-12.51", "-12.4", "-1.0", "-2.5", "-1", "-2", "-12", "-13", "-0"},
+	"i": {"-1", "-2", "-12", "-13", "-0", "0", "-1e0", "-5"},
+}
+
+func numVal(t string) float64 {
+	v, err := strconv.ParseFloat(t, 64)
+	if err != nil {
+		panic("generator: bad number " + t)
+	}
+	return v
+}
+
+// boundsAdmit: the (decimal, exactly distinguishable) value of tok lies within the node's min / max.
+func boundsAdmit(n *Node, tok string) bool {
+	v := numVal(tok)
+	if n.Min != "" {
+		if lo := numVal(n.Min); v < lo || (n.MinX && v == lo) {
+			return false
+		}
+	}
+	if n.Max != "" {
+		if hi := numVal(n.Max); v > hi || (n.MaxX && v == hi) {
+			return false
+		}
+	}
+	return true
+}
+
+// negBounds replaces the bounds of a number literal by bounds from the pool of negative fractions (min only, max
+// only, or both; exclusive one time in three) and picks an example token that satisfies them, so that Check passes.
+func (g *gen) negBounds(n *Node) {
+	r := g.r
+	n.Neg = true
+	n.Min, n.Max, n.MinX, n.MaxX = "", "", false, false
+	k := r.Intn(3)
+	if k != 1 {
+		n.Min = negBoundPool[r.Intn(len(negBoundPool))]
+		n.MinX = r.Intn(3) == 0
+	}
+	if k != 0 {
+		n.Max = negBoundPool[r.Intn(len(negBoundPool))]
+		n.MaxX = r.Intn(3) == 0
+	}
+	for tries := 0; tries < 2; tries++ {
+		c := negExamples[n.Lit]
+		off := r.Intn(len(c))
+		for i := range c {
+			if t := c[(off+i)%len(c)]; boundsAdmit(n, t) {
+				n.Ex = t
+				return
+			}
+		}
+		if n.Min != "" {
+			n.Max, n.MaxX = "", false // empty window: keep the lower bound only
+		} else {
+			n.Max, n.MaxX = "-0.2", false
+		}
+	}
+	n.Ex = litText[n.Lit] // not reached: "1" / "1.5" satisfy every lower bound of the pool
+}
+
+func exampleTok(n *Node) string {
+	if n.Ex != "" {
+		return n.Ex
+	}
+	return litText[n.Lit]
+}
+
 var tokPool = map[string][]string{
-	"i": {"1", "0", "-1", "2", "7", "-5", "-0", "1e1", "10", "100", "2e0", "15e-1"},
-	"f": {"1.5", "1.0", "2.50", "-0.5", "0.15e1", "7.25", "1.50", "-5.0", "1e-1", "99.9"},
+	"i": {"1", "0", "-1", "2", "7", "-5", "-0", "1e1", "10", "100", "2e0", "15e-1", "-2", "-12"},
+	"f": {"1.5", "1.0", "2.50", "-0.5", "0.15e1", "7.25", "1.50", "-5.0", "1e-1", "99.9", "-1.5", "-1.4", "-1.6", "-1.45", "-15e-1", "-0.25", "-0.3", "-12.5", "-1249e-2"},
 	"s": {`"s"`, `""`, `"ss"`, `"sss"`, `"ssss"`},
 	"b": {"true", "false"},
 	"n": {"null"},
@@ -258,7 +343,7 @@ func printNode(n *Node, indent int, prefix, comma string, optional bool) []strin
 	case "or":
 		return []string{pad + prefix + orExample(n) + comma + rules(n, optional)}
 	case "lit":
-		return []string{pad + prefix + litText[n.Lit] + comma + rules(n, optional)}
+		return []string{pad + prefix + exampleTok(n) + comma + rules(n, optional)}
 	case "any":
 		return []string{pad + prefix + "1" + comma + rules(n, optional)}
 	case "ref":
@@ -302,6 +387,9 @@ func orExample(n *Node) string {
 	for _, a := range n.Or {
 		if a.Kind == "lit" {
 			for _, t := range tokPool[a.Lit] {
+				if strings.ContainsAny(t, "eE") {
+					continue // an exponent is a lexical error in schema text
+				}
 				if litFits(a, t) {
 					return t
 				}
@@ -457,6 +545,10 @@ func (g *gen) sample(n *Node, types map[string]*Node, fuel int) *Doc {
 	}
 	switch n.Kind {
 	case "lit":
+		if n.Neg && r.Intn(4) != 0 { // a value on / just inside / just outside the negative bounds, in some spelling
+			p := negDocToks[n.Lit]
+			return &Doc{Kind: "l", Lit: n.Lit, Tok: p[r.Intn(len(p))]}
+		}
 		if n.Lit == "f" && r.Intn(2) == 0 {
 			return &Doc{Kind: "l", Lit: "i"}
 		}
@@ -699,6 +791,9 @@ func (f *feat) walk(n *Node, types map[string]*Node, open map[string]bool, done 
 			f.walk(a, types, open, done)
 		}
 	case "lit":
+		if n.Neg {
+			f.rules["negative_fraction_bounds"] = true
+		}
 		if n.Min != "" {
 			f.rules["min"] = true
 			if n.MinX {
